@@ -72,7 +72,7 @@ def check(run, text, viol, counts, classes, chains=None, titrate_only=None, remo
         if run.text:
             _check_summary(run, [dict(s_, bridged=False) for s_ in usites if s_["in_list"]], rec["confs"]["AVR"],
                            rec["confs"][names[0]], viol, counts, classes, remove_penalised)
-    _classify_twins(viol, nviol0, text, chains, c)
+    _classify_twins(viol, nviol0, text, chains, c, multi=len(names) > 1)
     nviol1 = len(viol)
     if same:
         # AVR and the written summary report the same set (identical site sets in all models)
@@ -82,7 +82,7 @@ def check(run, text, viol, counts, classes, chains=None, titrate_only=None, remo
         if run.text:
             _check_summary(run, exp, rec["confs"]["AVR"], rec["confs"][names[0]], viol, counts, classes,
                            remove_penalised)
-    _classify_twins(viol, nviol1, text, chains, c)
+    _classify_twins(viol, nviol1, text, chains, c, multi=len(names) > 1)
     return cen
 
 
@@ -100,9 +100,12 @@ def _twin_numbers(text, chains, c):
     return {k for k, v in seen.items() if len(v) > 1}
 
 
-def _classify_twins(viol, start, text, chains, c):
+def _classify_twins(viol, start, text, chains, c, multi=True):
     """Violations located ON a residue whose (chain, number) is shared by insertion-code twins are
-    attributed to the label-merging mechanism (known finding icode-twins-merged)."""
+    attributed to the label-merging mechanism (known finding icode-twins-merged). In single-conformation
+    inputs the unchanged program reports every twin site (4000 twin inputs, no missing / duplicated /
+    spurious row): there only the bridge / titration flags of twin cysteines are attributed to the finding,
+    a missing or duplicated twin group stays a violation."""
     if len(viol) <= start:
         return
     twins = _twin_numbers(text, chains, c)
@@ -113,6 +116,8 @@ def _classify_twins(viol, start, text, chains, c):
         twin_labels.add("%4d%2s" % (num, ch if ch.strip() else "_"))
     for v in viol[start:]:
         if v["cls"].startswith("twins:") or not v["cls"].startswith(("census-", "summary-")):
+            continue
+        if not multi and v["cls"] not in ("census-bridged-cys", "census-not-titrated"):
             continue
         loc = v.get("loc")
         if loc is not None and ((loc[0] if loc[0] != "_" else " "), loc[1]) in twins:
